@@ -236,6 +236,8 @@ def path_text(k: tuple, root: str = 'task') -> str:
             t = f"leaves({t})"
         elif op.endswith('?'):
             t = f"{t}[{op[:-1]}]"
+        elif op.startswith('@'):
+            t = f"{t}.{op[1:]}"
         else:
             t = f"{t}.{op}"
     return t
@@ -264,8 +266,10 @@ class RelEval:
             if e.id == self.task_param:
                 return {(): list(UNCOND)}
             return self.var(e.id, at, e)
-        if isinstance(e, ast.Attribute) and (e.attr in RELS or e.attr == 'id'):
+        if isinstance(e, ast.Attribute) and e.attr in RELS:
             return _ext(self.ev(e.value, env, at), e.attr)
+        if isinstance(e, ast.Attribute) and not e.attr.startswith('_'):
+            return _ext(self.ev(e.value, env, at), '@' + e.attr)       # a scalar attribute of the tasks (key)
         if isinstance(e, (ast.List, ast.Tuple, ast.Set)):
             out: Paths = {}
             for x in e.elts:
